@@ -100,5 +100,40 @@ pub fn mchash(_seed: u64) -> usize {
             }
         }
     }
+    // independent reference: SHA-1 of the concatenation read as a signed big-endian number, printed in hex
+    // (two's complement negation with carry through all 20 bytes, no leading zeros); 60000 inputs give about a hundred
+    // each of: negative digests ending in 0x00 (carry), digests starting with a zero nibble / byte
+    use sha1::{Digest, Sha1};
+    for i in 0..60000u32 {
+        let (a, b, c) = (format!("passage-{i}"), format!("secret{}", i % 7), [i as u8, (i >> 8) as u8, 0x80, 0xff]);
+        let mut h = Sha1::new();
+        h.update(a.as_bytes());
+        h.update(b.as_bytes());
+        h.update(c);
+        let mut d: [u8; 20] = h.finalize().into();
+        let neg = d[0] & 0x80 != 0;
+        if neg {
+            let mut carry = 1u16;
+            for k in (0..20).rev() {
+                let v = (!d[k]) as u16 + carry;
+                d[k] = v as u8;
+                carry = v >> 8;
+            }
+        }
+        let mut hex = String::new();
+        for byte in d {
+            hex.push(char::from_digit((byte >> 4) as u32, 16).unwrap());
+            hex.push(char::from_digit((byte & 15) as u32, 16).unwrap());
+        }
+        let t = hex.trim_start_matches('0');
+        let want = if t.is_empty() { "0".to_string() } else if neg { format!("-{t}") } else { t.to_string() };
+        let got = minecraft_hash(&a, b.as_bytes(), &c);
+        if got != want {
+            if found < 5 {
+                println!("REPRODUCED mchash minecraft_hash({a:?}, {b:?}, {c:?}) = {got:?}, the signed hex SHA-1 digest is {want:?}");
+            }
+            found += 1;
+        }
+    }
     found
 }
